@@ -115,7 +115,7 @@ def coq_report():
         pass
     if rc != 0:
         return None, out
-    m = re.search(r'=\s*"(.*)"%string', out, flags=re.S)
+    m = re.search(r'=\s*"(.*)"(?:%string)?\s*:\s*string', out, flags=re.S)
     if not m:
         return None, out
     body = m.group(1).replace('""', '"')
